@@ -35,6 +35,9 @@ type c19Obs struct {
 	Kind   int    `json:"kind"`
 	Exit   int    `json:"exit"`
 	Stderr string `json:"stderr,omitempty"` // first 300 bytes, only when Kind != 0
+	// Unconfirmed: a death (2) or hang (3) of the child that did not reproduce, neither alone nor after
+	// the preceding programs; recorded, not reported (machine load / leftovers of an earlier program)
+	Unconfirmed int `json:"unconfirmed,omitempty"`
 }
 
 type c19 struct{}
@@ -226,20 +229,23 @@ func (ch *c19Child) kill() {
 	os.RemoveAll(ch.cmd.Dir)
 }
 
-func (c19) Run(raw json.RawMessage) Result {
-	var c c19Case
-	if err := json.Unmarshal(raw, &c); err != nil {
-		die("C19: bad case: %v", err)
-	}
+// c19Recent: the programs most recently sent to the current child (oldest first); used to
+// attribute a death of the child to the right program.
+var c19Recent []string
+
+// c19RunOnce sends one program to the current child (starting one if needed) and returns
+// what happened. After kind 2 or 3 the child has been killed.
+func c19RunOnce(prog string) c19Obs {
 	if c19Cur == nil {
 		c19Cur = c19Start()
+		c19Recent = nil
 	}
 	ch := c19Cur
 	wait := 0
-	if strings.Contains(c.Prog, "!pipe") {
+	if strings.Contains(prog, "!pipe") {
 		wait = 2300 // the delayed close of a named pipe fires 2 s later: attribute a crash to this program
 	}
-	b, _ := json.Marshal(map[string]any{"prog": c.Prog, "wait_ms": wait})
+	b, _ := json.Marshal(map[string]any{"prog": prog, "wait_ms": wait})
 	var o c19Obs
 	type rd struct {
 		line string
@@ -268,6 +274,50 @@ func (c19) Run(raw json.RawMessage) Result {
 		// in-child timeout: the program's goroutines may still be stuck; restart for isolation
 		ch.kill()
 		c19Cur = nil
+	}
+	if c19Cur != nil {
+		c19Recent = append(c19Recent, prog)
+		if len(c19Recent) > 12 {
+			c19Recent = c19Recent[1:]
+		}
+	}
+	return o
+}
+
+func (c19) Run(raw json.RawMessage) Result {
+	var c c19Case
+	if err := json.Unmarshal(raw, &c); err != nil {
+		die("C19: bad case: %v", err)
+	}
+	window := append([]string{}, c19Recent...)
+	o := c19RunOnce(c.Prog)
+	if o.Kind == 2 || o.Kind == 3 {
+		// Confirm before reporting: (a) the program alone in a fresh child; (b) if that is clean,
+		// the recent window followed by the program (a goroutine left behind by an earlier program
+		// may be what killed the child). Reported only if it dies / hangs again; otherwise the
+		// first observation is kept in the evidence as `unconfirmed` and the case counts as finished.
+		first := o.Kind
+		o2 := c19RunOnce(c.Prog)
+		if o2.Kind == 0 || o2.Kind == 1 {
+			if c19Cur != nil {
+				c19Cur.kill()
+				c19Cur = nil
+			}
+			o2 = c19Obs{}
+			for _, w := range window {
+				if r := c19RunOnce(w); r.Kind == 2 || r.Kind == 3 {
+					o2 = r
+					break
+				}
+			}
+			if o2.Kind == 0 {
+				o2 = c19RunOnce(c.Prog)
+			}
+		}
+		o = o2
+		if o.Kind == 0 {
+			o.Unconfirmed = first
+		}
 	}
 	coq := coqlit.Record("c_prog", coqlit.Bytes(c.Prog), "c_kind", coqlit.N(uint64(o.Kind)))
 	return Result{Obs: o, Coq: coq, Nontrivial: o.Exit != 0 || o.Kind != 0, Class: c.Tmpl}
